@@ -152,6 +152,25 @@ func (x *c04Gen) leaf() *c04Goal {
 	return &c04Goal{Op: "fail"}
 }
 
+// scoped generates the whole argument of a construct that is opaque to cut: now and then a flat conjunction with cuts
+// in it, two or more of them more often than not.
+func (x *c04Gen) scoped(depth int) *c04Goal {
+	g := x.g
+	if depth <= 0 || x.budget <= 2 || g.Choose(4) != 0 {
+		return x.goal(depth)
+	}
+	s := &c04Goal{Op: "seq"}
+	n := 1 + g.Choose(3)
+	for i := 0; i < n; i++ {
+		s.Args = append(s.Args, x.goal(depth-1))
+	}
+	s.Cuts = 1 + g.Choose(1<<uint(n+1)-1)
+	if g.Choose(2) == 0 {
+		s.Cuts |= 1 << uint(g.Choose(n+1)) // one more, possibly
+	}
+	return s
+}
+
 func (x *c04Gen) goal(depth int) *c04Goal {
 	g := x.g
 	x.budget--
@@ -166,18 +185,18 @@ func (x *c04Gen) goal(depth int) *c04Goal {
 	case 2:
 		return &c04Goal{Op: "or", Args: []*c04Goal{x.goal(depth - 1), x.goal(depth - 1)}}
 	case 3:
-		return &c04Goal{Op: "ite", Args: []*c04Goal{x.goal(depth - 1), x.goal(depth - 1), x.goal(depth - 1)}}
+		return &c04Goal{Op: "ite", Args: []*c04Goal{x.scoped(depth - 1), x.goal(depth - 1), x.goal(depth - 1)}}
 	case 4:
-		return &c04Goal{Op: "not", Args: []*c04Goal{x.goal(depth - 1)}}
+		return &c04Goal{Op: "not", Args: []*c04Goal{x.scoped(depth - 1)}}
 	case 5:
-		return &c04Goal{Op: "call", Args: []*c04Goal{x.goal(depth - 1)}}
+		return &c04Goal{Op: "call", Args: []*c04Goal{x.scoped(depth - 1)}}
 	case 6:
-		return &c04Goal{Op: "once", Args: []*c04Goal{x.goal(depth - 1)}}
+		return &c04Goal{Op: "once", Args: []*c04Goal{x.scoped(depth - 1)}}
 	case 7:
 		if x.inBody {
 			return x.leaf()
 		}
-		return &c04Goal{Op: "findall", V: 1 + g.Choose(4), Args: []*c04Goal{x.goal(depth - 1)}}
+		return &c04Goal{Op: "findall", V: 1 + g.Choose(4), Args: []*c04Goal{x.scoped(depth - 1)}}
 	case 8:
 		switch g.Weighted(8, 2, 2) {
 		case 1:
@@ -194,7 +213,7 @@ func (x *c04Gen) goal(depth int) *c04Goal {
 			x.nextI++
 			return &c04Goal{Op: "catch", N: 2, Kind: kind, V: int(v[len(v)-1] - '0'), I: x.nextI, T: x.catcher(), Args: []*c04Goal{{Op: "true"}, x.goal(depth - 1)}, U: map[bool]int{true: 1, false: 0}[x.inBody]}
 		}
-		return &c04Goal{Op: "catch", T: x.catcher(), Args: []*c04Goal{x.goal(depth - 1), x.goal(depth - 1)}}
+		return &c04Goal{Op: "catch", T: x.catcher(), Args: []*c04Goal{x.scoped(depth - 1), x.goal(depth - 1)}}
 	}
 	if x.minU < x.nPreds {
 		u := x.minU + g.Choose(x.nPreds-x.minU)
@@ -222,7 +241,7 @@ func c04GenScenario(r *kit.Run) *c04Scenario {
 				cl.Cut = 1
 				cl.Body = &c04Goal{Op: "and", Args: []*c04Goal{bx.goal(2), bx.goal(2)}}
 			} else {
-				cl.Body = bx.goal(3)
+				cl.Body = bx.scoped(3)
 			}
 			sc.Preds[u] = append(sc.Preds[u], cl)
 		}
@@ -283,6 +302,18 @@ func c04Text(g *c04Goal) string {
 		return fmt.Sprintf("between(1, %d, _)", g.N)
 	case "and":
 		return "(" + c04Text(g.Args[0]) + ", " + c04Text(g.Args[1]) + ")"
+	case "seq":
+		var parts []string
+		if g.Cuts&1 != 0 {
+			parts = append(parts, "!")
+		}
+		for i, a := range g.Args {
+			parts = append(parts, c04Text(a))
+			if g.Cuts&(1<<uint(i+1)) != 0 {
+				parts = append(parts, "!")
+			}
+		}
+		return "(" + strings.Join(parts, ", ") + ")"
 	case "or":
 		return "(" + c04Text(g.Args[0]) + " ; " + c04Text(g.Args[1]) + ")"
 	case "ite":
